@@ -25,7 +25,7 @@ REPORT = ['modules', 'evaluations', 'documents_read_by_independent_reader', 'lib
           'strings_with_markup_characters', 'skipped_xml_illegal_characters', 'reader_not_applicable', 'carved_out']
 FLOORS = {'quick': {'evaluations': 20000, 'documents_read_by_independent_reader': 15000, 'reals_compared': 1000},
           'thorough': {'evaluations': 80000, 'documents_read_by_independent_reader': 60000, 'reals_compared': 4000}}
-TIMEOUT = {'quick': 1800, 'thorough': 14000}
+TIMEOUT = {'quick': 1800, 'thorough': 5400}
 INDENTS = [None, 0, 1, 4]
 MARKUP = ['<', '>', '&', '"', "'", ']]>', '<!--', ' x', 'x ', '  ', '\t', '\n', '', '&amp;', '&#13;', '\\', '/', '{', '\x7f', 'é', '中']
 
